@@ -271,6 +271,7 @@ func main() {
 	walOrder(cfg, sum, dir)
 	walIngestCrash(cfg, sum, r.Fork())
 	walRewriteCrash(cfg, sum, r.Fork())
+	walBigBlocks(cfg, sum, dir)
 	sum.Write(cfg.Out)
 }
 
@@ -922,4 +923,104 @@ func walRewriteCrash(cfg vhlib.Config, sum *vhlib.Summary, r *vhlib.Rng) {
 	sum.WriteCaseFile(cfg.Out, "cases_rewrite", "From SigM Require Import Base Crc32 Wal WalRewrite.\n", defs,
 		fmt.Sprintf("check_rewrite %v payloads tbl observed_ops obs", atomic), len(obs)+1)
 	sum.Sample(map[string]interface{}{"part": "Wal.Write rewrite", "writes": nw, "calls": len(toks), "protocol_atomic": atomic})
+}
+
+// ---------- blocks as large as the writers can make them (oracle only: the theorems are for every size, the Coq
+// comparison runs on the small logs above) ----------
+// The name log has no bound on the names of one flush interval; a datapoint block holds up to WAL_BLOCK_FLUSH_SIZE
+// datapoints; the meta-entry log holds every unrotated segment.  Each log: [big block, small block], read back whole
+// and cut before / inside / after the big block.
+func walBigBlocks(cfg vhlib.Config, sum *vhlib.Summary, dir string) {
+	sizes := []int{45000}
+	if cfg.Thorough() {
+		sizes = []int{20000, 45000, 150000}
+	}
+	for _, n := range sizes {
+		// names: ~30 bytes each, n = 45000 is ~1.3 MiB before compression
+		big := make([]string, n)
+		for i := range big {
+			big[i] = fmt.Sprintf("fleet_%06d_cpu_seconds_total_x", i)
+		}
+		small := []string{"disk_a", "disk_b", "disk_c"}
+		path := filepath.Join(dir, fmt.Sprintf("big_mn_%d.wal", n))
+		w, err := wal.NewWAL(path, wal.NewMetricNameEncoder())
+		if err != nil {
+			sum.HarnessError("NewWAL: " + err.Error())
+			return
+		}
+		var bounds []int64
+		for _, b := range [][]string{big, small} {
+			if err := w.Append(b); err != nil {
+				sum.HarnessError("Append(big names): " + err.Error())
+				return
+			}
+			if fi, err := os.Stat(path); err == nil {
+				bounds = append(bounds, fi.Size())
+			}
+		}
+		w.Close()
+		all := append(append([]string{}, big...), small...)
+		check := func(label string, want int) {
+			got, st := readNames(path)
+			sum.Eval(fmt.Sprintf("bigmn/%d/%s", n, label), true)
+			sum.Count("bignames/" + label)
+			ok := st != 2 && len(got) == want
+			for i := 0; ok && i < want; i += 997 {
+				ok = got[i] == all[i]
+			}
+			if ok && want > 0 {
+				ok = got[want-1] == all[want-1]
+			}
+			if !ok {
+				sum.Fail("wal_large_block_not_replayed", fmt.Sprintf("name log [%d names, 3 names] %s: %d names replayed (status %d), %d completed", n, label, len(got), st, want),
+					map[string]interface{}{"names_in_first_block": n, "cut": label, "replayed": len(got), "expected": want})
+			}
+		}
+		check("whole", n+3)
+		if len(bounds) == 2 {
+			_ = os.Truncate(path, bounds[1]-1)
+			check("cut inside the small block", n)
+			_ = os.Truncate(path, bounds[0])
+			check("cut after the big block", n)
+			_ = os.Truncate(path, bounds[0]-1)
+			check("cut inside the big block", 0)
+		}
+		_ = os.Remove(path)
+	}
+	// datapoints: one block of WAL_BLOCK_FLUSH_SIZE datapoints (the largest the writer appends) and one of 3
+	nd := sutils.WAL_BLOCK_FLUSH_SIZE
+	mk := func(k, n int) []wal.WalDatapoint {
+		out := make([]wal.WalDatapoint, n)
+		for i := range out {
+			out[i] = wal.WalDatapoint{Timestamp: uint32(1700000000 + k + i), DpVal: float64(i) * 1.5, Tsid: uint64(1000 + i%97)}
+		}
+		return out
+	}
+	path := filepath.Join(dir, "big_dp.wal")
+	w, err := wal.NewWAL(path, wal.NewDataPointEncoder())
+	if err != nil {
+		sum.HarnessError("NewWAL: " + err.Error())
+		return
+	}
+	b1, b2 := mk(0, nd), mk(nd, 3)
+	if err := w.Append(b1); err != nil {
+		sum.HarnessError("Append(big dps): " + err.Error())
+		return
+	}
+	_ = w.Append(b2)
+	w.Close()
+	got, st := readDP(path)
+	sum.Eval("bigdp/whole", true)
+	sum.Count("bigdps/whole")
+	ok := st == 0 && len(got) == nd+3
+	for i := 0; ok && i < nd; i += 499 {
+		ok = got[i] == b1[i]
+	}
+	if ok {
+		ok = got[nd+2] == b2[2]
+	}
+	if !ok {
+		sum.Fail("wal_large_block_not_replayed", fmt.Sprintf("datapoint log [%d datapoints, 3 datapoints]: %d replayed (status %d)", nd, len(got), st), map[string]interface{}{"datapoints_in_first_block": nd, "replayed": len(got)})
+	}
+	_ = os.Remove(path)
 }
